@@ -27,7 +27,7 @@ type genCfg struct {
 
 var cfgGeneral = genCfg{
 	names: []string{"a", "b", "c"}, subs: []string{"", "", "", "", "x", "x", "y", "y", "k=v"},
-	types:    []int{0, 1, 2, 3, 4, 5, tyI0, tyI3, tyI1, 6},
+	types:    []int{0, 1, 2, 3, 4, 5, tyI0, tyI3, tyI1, 6, tyL0, tyLU},
 	maxConvs: 6, maxDepth: 3, pFail: 4, pOnce: 10, pLeave: 8, pDistract: 40,
 	forms: []string{"pos", "pos", "struct", "ptr", "built"}, multiIn: 25,
 }
